@@ -148,6 +148,55 @@ def passthrough_clause(model, rep, funcs):
                clause="layout", stmt=f"def {w} passthrough")
 
 
+# options of the polars readers / writers that change the values (or dtypes) that come back; acryo itself sets none of them - they are the caller's to choose
+VALUE_OPTIONS = {
+    "write_csv": {"float_scientific", "null_value", "decimal_comma", "datetime_format", "date_format", "time_format", "quote_style", "separator", "include_header",
+                  "has_header", "line_terminator", "quote_char"},
+    "read_csv": {"try_parse_dates", "schema", "schema_overrides", "dtypes", "null_values", "ignore_errors", "n_rows", "skip_rows", "skip_rows_after_header",
+                 "truncate_ragged_lines", "decimal_comma", "has_header", "new_columns", "columns", "infer_schema_length", "infer_schema", "missing_utf8_is_empty_string",
+                 "separator", "quote_char", "comment_prefix", "eol_char", "encoding", "row_index_name", "row_count_name", "raise_if_empty", "use_pyarrow"},
+    "write_parquet": set(),
+    "read_parquet": {"columns", "n_rows", "row_index_name", "row_count_name", "schema", "hive_partitioning", "use_pyarrow", "allow_missing_columns"},
+}
+
+
+def io_option_clause(model, rep, funcs):
+    """Readers and writers add no value-altering option of their own, and the caller's **kwargs dictionary reaches polars as it was given."""
+    for name in ("to_csv", "to_parquet", "from_csv", "from_parquet"):
+        f = funcs.get(MC + name)
+        if f is None:
+            continue
+        params = set(f.param_names())
+        kwname = f.node.args.kwarg.arg if f.node.args.kwarg else None
+        for c in calls_in(f):
+            last = (dotted(c.func) or norm_src(c.func)).split(".")[-1]
+            if last not in VALUE_OPTIONS:
+                continue
+            rep.instance("S10.options", f.loc(c))
+            bad = []
+            for k in c.keywords:
+                if k.arg is None:
+                    continue
+                if k.arg in VALUE_OPTIONS[last] and not (isinstance(k.value, ast.Name) and k.value.id in params):
+                    bad.append(f"`{k.arg}={norm_src(k.value)[:50]}` is set by acryo itself")
+            if kwname:
+                for n in ast.walk(f.node):
+                    if isinstance(n, ast.Call) and isinstance(n.func, ast.Attribute) and isinstance(n.func.value, ast.Name) and n.func.value.id == kwname and \
+                            n.func.attr in ("setdefault", "update", "pop", "__setitem__"):
+                        key = n.args[0].value if n.args and isinstance(n.args[0], ast.Constant) else None
+                        if key is None or key in VALUE_OPTIONS[last]:
+                            bad.append(f"`{norm_src(n)[:60]}` changes how the file is parsed before the caller's options are forwarded")
+                    if isinstance(n, (ast.Assign, ast.AugAssign)):
+                        for t in (n.targets if isinstance(n, ast.Assign) else [n.target]):
+                            if isinstance(t, ast.Subscript) and isinstance(t.value, ast.Name) and t.value.id == kwname:
+                                bad.append(f"`{norm_src(n)[:60]}` changes the caller's options")
+                            if isinstance(t, ast.Name) and t.id == kwname:
+                                bad.append(f"`{norm_src(n)[:60]}` replaces the caller's options")
+            rep.ob("S10", f.anchor, f"{name}: no value-altering {last} option is injected (what is written is what is read back, in plain decimal notation and with the "
+                   "column types polars infers)", not bad, "; ".join(bad), node=c, fn=f, clause="layout", stmt=f"{name} {last} options")
+    rep.floor("S10.options", 4, "(two writers, two readers)")
+
+
 def check(model, rep, tier):
     rep.decided += ["C13 column layout: _CSV_COLUMNS == keys/indices written by to_dataframe == default pos_cols + rot_cols of every reader; features after them; "
                     "to_file/from_file dispatch on the same suffix set; readers funnel into from_dataframe, writers into to_dataframe; only the rot-vec is cast to float32"]
@@ -249,4 +298,5 @@ def check(model, rep, tier):
         rep.ob("S10", ff.anchor, "each suffix is read by the reader of the format it was written in", okw and okr, f"writer ok {okw}, reader ok {okr}", node=ff.node,
                fn=ff, clause="layout", stmt="suffix dispatch targets")
     rep.floor("S10", 10, "(I/O table sites)")
+    io_option_clause(model, rep, funcs)
     passthrough_clause(model, rep, funcs)
